@@ -39,8 +39,8 @@ def _expect(nr, cutoff_t, n):
   return rv(n) * cutoff_t / rv(nr - 1)
 
 
-def api_case(nr, npots, derivs, route, h=None, intcore=False):
-  res = new_result("api nr=%d npots=%d derivs=%s route=%s%s%s" % (nr, npots, derivs, route, "" if h is None else " h=%g" % h, " int-valued core" if intcore else ""))
+def api_case(nr, npots, derivs, route, h=None, intcore=False, after_failure=False):
+  res = new_result("api nr=%d npots=%d derivs=%s route=%s%s%s" % (nr, npots, derivs, route, "" if h is None else " h=%g" % h, " int-valued core" if intcore else "") + (" after failed writes of another table" if after_failure else ""))
   import atsim.potentials as ap
   from atsim.potentials import Potential
   from atsim.potentials.pair_tabulation import LAMMPS_PairTabulation
@@ -62,6 +62,23 @@ def api_case(nr, npots, derivs, route, h=None, intcore=False):
       u0 = uf("U0", deriv=True)
       pots[0] = Potential(labels[0][0], labels[0][1], common.IntCore(u0, u0.deriv, thr))
     out = io.StringIO()
+    if after_failure:
+      # another table of the same shape whose potential fails at its second (third, ...) evaluation was attempted first
+      for nfail in (1, 2, 3):
+        cnt = [0]
+
+        def doomed(r_, cnt=cnt, nfail=nfail):
+          cnt[0] += 1
+          if cnt[0] > nfail:
+            raise ArithmeticError("injected failure")
+          return 1.0
+        try:
+          if route == "class":
+            LAMMPS_PairTabulation([Potential(labels[0][0], labels[0][1], doomed)], cutoff, nr).write(io.StringIO())
+          else:
+            ap.writePotentials("LAMMPS", [Potential(labels[0][0], labels[0][1], doomed)], cutoff, nr, io.StringIO())
+        except ArithmeticError:
+          pass
     core.INT_TAGS = intcore
     try:
       second = None
@@ -137,7 +154,7 @@ def api_case(nr, npots, derivs, route, h=None, intcore=False):
   def replay(v, w, path, structural):
     if intcore:
       return common.replay_pair_intcore("LAMMPS", nr, npots, derivs, labels, w, route)
-    return common.replay_pair_table("LAMMPS", nr, npots, derivs, labels, w, route, h)
+    return common.replay_pair_table("LAMMPS", nr, npots, derivs, labels, w, route, h, after_failure=after_failure)
 
   explore_and_check(res, fn, build, replay=replay, negative=lambda p: build(p, wrong=True))
   res["nontrivial"] = res["vcs"]
@@ -350,6 +367,8 @@ def cases(tier, seed=0):
           cs.append(Case("api nr=%d n=%d d=%s %s" % (nr, npots, "".join("ad"[not d] for d in derivs), route),
                          api_case, nr=nr, npots=npots, derivs=derivs, route=route))
   cs.append(Case("api custom h", api_case, nr=4, npots=1, derivs=(False,), route="class", h=1e-5))
+  for route in ("class", "writePotentials"):
+    cs.append(Case("api nr=5 n=2 after failed writes %s" % route, api_case, nr=5, npots=2, derivs=(True, False), route=route, after_failure=True))
   # potentials that return python ints over part of their range (`return 0` inside a cut-off core)
   for nr, npots, route in ([(5, 1, "class"), (4, 2, "writePotentials")] if tier == "quick" else
                            [(nr_, n_, r_) for nr_ in (3, 5, 8) for n_ in (1, 2) for r_ in ("class", "writePotentials")]):
